@@ -200,7 +200,12 @@ def guarded(check):
         signal.setitimer(signal.ITIMER_PROF, CASE_TIME_LIMIT)
         signal.alarm(CASE_WALL_LIMIT)
         try:
-            return check(case)
+            from . import monitors
+            del monitors.CLASS_LOG[:]
+            v = check(case)
+            if v.status == 'fail' and monitors.CLASS_LOG and v.detail:
+                v.detail += '\nspecification classes instantiated last: %s' % ', '.join(monitors.CLASS_LOG)
+            return v
         except CaseTimeout:
             return FAIL('hang:>%ds' % CASE_TIME_LIMIT, 'the case did not finish within %d s of CPU time:\n%r' % (CASE_TIME_LIMIT, jsonable(case)))
         except WallTimeout:
